@@ -999,6 +999,23 @@ fn sampled_case(rng: &mut Rng, fib: &[i128], cx: &mut Cx) {
         0 => {
             let (a, b) = gen_signed_pair(rng, fib, true);
             check_gcd::<i64>(Sm::from_i(a), Sm::from_i(b), cx);
+            if b.abs() >= 2 && rng.chance(1, 4) {
+                // straight afterwards: the same second operand with a first operand that agrees with the previous one in
+                // its low 16 / 32 bits but has another gcd with it
+                let shift = *rng.pick(&[16u32, 32, 32]);
+                let d = b.abs();
+                let p = (2..=d.min(1000)).find(|q| d % q == 0).unwrap_or(d);
+                for t in 1..=p.min(64) {
+                    let a2 = a + t * (1i128 << shift);
+                    if a2 % p == 0 {
+                        cx.rep.inc("related_calls_after_a_call");
+                        check_gcd::<i64>(Sm::from_i(a2), Sm::from_i(b), cx);
+                        check_gcd::<i128>(Sm::from_i(a), Sm::from_i(b), cx);
+                        check_gcd::<i128>(Sm::from_i(a2), Sm::from_i(b), cx);
+                        break;
+                    }
+                }
+            }
         }
         1 => {
             let (a, b) = gen_signed_pair(rng, fib, false);
@@ -1009,11 +1026,50 @@ fn sampled_case(rng: &mut Rng, fib: &[i128], cx: &mut Cx) {
             let c = gen_c(rng, a, b);
             cx.t.max_operand = cx.t.max_operand.max(a.abs().max(b.abs()).max(c.abs()) as i64);
             check_egcd::<i64>(a, b, c, cx);
+            // related calls straight afterwards on the same thread (whatever the first call left behind - a memo, a
+            // cache line keyed by part of the arguments - is consulted by a call that differs in a sign, in the order of
+            // the operands or in the right-hand side only)
+            if rng.chance(1, 3) {
+                for _ in 0..rng.range_usize(1, 3) {
+                    let c2 = gen_c(rng, a, b);
+                    let (a2, b2) = match rng.below(5) {
+                        0 => (-a, b),
+                        1 => (a, -b),
+                        2 => (-a, -b),
+                        3 => (b, a),
+                        _ => (a, b),
+                    };
+                    if a2 == 0 && b2 == 0 {
+                        continue;
+                    }
+                    cx.rep.inc("related_calls_after_a_call");
+                    check_egcd::<i64>(a2, b2, c2, cx);
+                    check_gcd::<i64>(Sm::from_i(a2), Sm::from_i(b2), cx);
+                }
+            }
         }
         _ => {
             let (a1, m1, a2, m2) = gen_crt(rng, fib);
             cx.t.max_modulus = cx.t.max_modulus.max(m1.max(m2) as i64);
             check_crt::<i64>(a1, m1, a2, m2, cx);
+            if rng.chance(1, 3) {
+                // the same solution x asked for through other pairs of moduli with the SAME PRODUCT (a small prime factor
+                // moved from one modulus to the other), through the swapped pair and with other residues
+                let g = own_gcd(m1 as u128, m2 as u128) as i128;
+                let x = own_crt(a1, m1, a2, m2).unwrap_or((a1 + a2) % (m1 / g * m2));
+                for k in [2i128, 3, 5, 7, 11, 13] {
+                    for (n1, n2) in [(m1 * k, m2 / k), (m1 / k, m2 * k)] {
+                        let divisible = if n1 > m1 { m2 % k == 0 } else { m1 % k == 0 };
+                        if !divisible || n1 < 1 || n2 < 1 || n1 > B || n2 > B {
+                            continue;
+                        }
+                        cx.rep.inc("related_calls_after_a_call");
+                        check_crt::<i64>(x % n1, n1, x % n2, n2, cx);
+                        check_crt::<i64>(x % n2, n2, (x + 1) % n1, n1, cx);
+                    }
+                }
+                check_crt::<i64>(a2, m2, a1, m1, cx);
+            }
         }
     }
 }
